@@ -83,11 +83,12 @@ CHECKS = {
             "Trusted: transfer.py; names without parentheses (output label format). Tables are compared at the transferred vector, "
             "so non-unique optima cannot raise an alarm.",
             "DESIGN.md 5 C09"),
-    "C10": ("model-based testing of generated operation histories (Hypothesis-generated operation lists interpreted on live objects; model = the same call on objects rebuilt from the pristine spec)",
+    "C10": ("model-based testing of generated operation histories (Hypothesis-generated operation lists interpreted on live objects; model = the same call on objects rebuilt from the pristine spec, for a sample also in a pristine interpreter)",
             "Exploration over histories: sequences of set-up / split set-up / fix-window / optimise / extract / serialise-reload / "
             "cost-sample calls on the same live assets, portfolio, Timegrid objects and price containers, interleaved with "
             "different horizons, zones, frequencies and units; after every step the live result must equal the result of "
-            "fresh objects and the caller's price data must be untouched.",
+            "fresh objects and the caller's price data must be untouched; for a sample of histories the last set-up is "
+            "repeated in a pristine interpreter (state kept at module or class level).",
             "Trusted: the fresh-object call is the model (also for expected exceptions). The operation list is the shrinkable replay.",
             "DESIGN.md 5 C10"),
     "C11": ("property-based testing (Hypothesis): round trip to_json / load_from_json with differential set-up against a fresh original",
